@@ -847,6 +847,8 @@ func (fv *FV) merge(name string, edges []*State) *State {
 		var rec *lastCall
 		same := true
 		var conds []string
+		var recs []*lastCall
+		var reaches []string
 		for _, e := range live {
 			r, ok := e.last[k]
 			if !ok {
@@ -857,11 +859,48 @@ func (fv *FV) merge(name string, edges []*State) *State {
 			}
 			if r.snap != rec.snap {
 				same = false
-				break
 			}
+			recs = append(recs, r)
+			reaches = append(reaches, e.reach)
 			conds = append(conds, and(e.reach, r.valid))
 		}
-		if rec == nil || !same {
+		if rec == nil {
+			continue
+		}
+		if !same {
+			// different calls of the same function on the joining paths (if c { f(a) } else { f(b) }): the
+			// record of "the last call" has the arguments and result of whichever path was taken; the state at
+			// the call is not kept (atlast() is not available after such a join)
+			ok := true
+			for _, r := range recs {
+				if len(r.args) != len(rec.args) || len(r.res) != len(rec.res) {
+					ok = false
+					break
+				}
+				for i := range r.args {
+					if !types.Identical(r.args[i].ty, rec.args[i].ty) {
+						ok = false
+					}
+				}
+			}
+			if !ok {
+				continue
+			}
+			mergeVals := func(pick func(r *lastCall) []SVal) []SVal {
+				var out []SVal
+				for i, a := range pick(rec) {
+					c := fv.freshConst("lastarg", fv.u.sortOf(a.ty))
+					for j, r := range recs {
+						fv.assumeGlobal(implies(reaches[j], eq(c, pick(r)[i].t)))
+					}
+					out = append(out, SVal{c, a.ty})
+				}
+				return out
+			}
+			if n.last == nil {
+				n.last = map[string]*lastCall{}
+			}
+			n.last[k] = &lastCall{snap: nil, args: mergeVals(func(r *lastCall) []SVal { return r.args }), res: mergeVals(func(r *lastCall) []SVal { return r.res }), valid: or(conds...)}
 			continue
 		}
 		if n.last == nil {
